@@ -305,6 +305,26 @@ CHECKS = {
         "num_workers programs are executed only in the real-interpreter subset.",
         "DESIGN.md 3/C16",
     ),
+    "C17": (
+        "exploration",
+        "exhaustive enumeration of a finite dataset x NaN-mask x plot-kind x option lattice; drawn artists read back and compared with a numpy recomputation",
+        "Datasets with 1-3 x points and 1-12 z series (numeric and string), "
+        "optional row / column dimensions, every NaN mask (quick: <= 2 holes, "
+        "thorough: all 2^9), inf cells, all-NaN series and datasets, several y "
+        "variables, error bars and c variables are plotted by the real lineplot "
+        "/ scatter / histogram / heatmap functions and their auto_* forms with "
+        "options one at a time and in pairs (Agg backend). From the returned "
+        "Figure the Line2D / PathCollection / Polygon / QuadMesh artists are "
+        "read back: one series per z value or variable, in order, labelled, "
+        "exactly the finite (x, y) pairs; histogram densities against "
+        "np.histogram; mesh values, mask and cell edges; panel titles / row "
+        "labels against the slice drawn; colours against colour map(norm(value)); "
+        "input dataset unchanged.",
+        "Options outside the property's list (padding, limits, fonts, ticks) are "
+        "not inspected; heat-map axes uniform; stacked histograms only have to "
+        "draw; colors=True is only combined with a z coordinate or c variable.",
+        "DESIGN.md 3/C17",
+    ),
 }
 
 NOT_BUILT = "check not built yet in this session (design in DESIGN.md section 3)"
